@@ -66,6 +66,15 @@ class _Sched:
                     self.events.append(('w', abseval.ev(t.slice, env), s))
             elif isinstance(s, ast.Expr):
                 self.accesses(s.value, env, stmt=s)
+                c = s.value
+                # X[i, j].update(..) / .add(..) grows the cell in place
+                if isinstance(c, ast.Call) and isinstance(c.func, ast.Attribute) and c.func.attr in ('update', 'add') and isinstance(c.func.value, ast.Subscript) and u(c.func.value.value) == self.table:
+                    cell = abseval.ev(c.func.value.slice, env)
+                    # the receiver itself was recorded as a read of the cell: it is the cell being written
+                    if self.events and self.events[-1][0] == 'r' and self.events[-1][1] == cell:
+                        pass
+                    self.events = [e for e in self.events if not (e[2] is s and e[0] == 'r' and e[1] == cell)]
+                    self.events.append(('w', cell, s))
             elif isinstance(s, (ast.Return, ast.Assert, ast.Pass)):
                 continue
             else:
@@ -157,16 +166,31 @@ def check_cyk_schedule(ctx, rep, f, max_n=12):
         else:
             rep.violates(RULE, f, st, 'the diagonal must be seeded as X[i,i] from the rules A -> w[i]')
     # the combination step: A joins X[i,j] iff [B, C] is a right-hand side of A with B from the left part, C from the right part
+    from .models import resolve_alias
+    source_of = {}       # loop variable -> text of the iterable it ranges over (aliases resolved)
     for s in walk_no_nested(f.node):
-        if isinstance(s, ast.For) and isinstance(s.iter, ast.Call) and ctx.callee_name(f, s.iter) == 'itertools.product' and len(s.iter.args) == 2:
-            left, right = u(s.iter.args[0]).replace(' ', ''), u(s.iter.args[1]).replace(' ', '')
-            tg = [u(x) for x in s.target.elts] if isinstance(s.target, ast.Tuple) else []
-            pair = [c for c in ast.walk(s) if isinstance(c, ast.List) and len(c.elts) == 2]
-            okp = pair and [u(x) for x in pair[0].elts] == tg
-            if left.startswith(table + '[i,k') and right.startswith(table + '[k+1,j') and okp:
-                rep.holds(RULE, f, s, 'pairs (B, C) are drawn from X[i,k] x X[k+1,j] in this order and looked up as the right-hand side [B, C]')
-            else:
-                rep.violates(RULE, f, s, 'the combination step must draw B from X[i,k] and C from X[k+1,j] and look up the right-hand side [B, C] in that order')
+        if isinstance(s, ast.For):
+            if isinstance(s.iter, ast.Call) and ctx.callee_name(f, s.iter) == 'itertools.product' and isinstance(s.target, ast.Tuple) and len(s.iter.args) == len(s.target.elts):
+                for t, a in zip(s.target.elts, s.iter.args):
+                    if isinstance(t, ast.Name):
+                        source_of[t.id] = (u(resolve_alias(f, a)).replace(' ', ''), s)
+            elif isinstance(s.target, ast.Name):
+                source_of[s.target.id] = (u(resolve_alias(f, s.iter)).replace(' ', ''), s)
+    pairs = []
+    for c in walk_no_nested(f.node):
+        if isinstance(c, ast.Compare) and len(c.ops) == 1 and isinstance(c.ops[0], ast.In):
+            lhs = resolve_alias(f, c.left) if isinstance(c.left, ast.Name) else c.left
+            if isinstance(lhs, ast.List) and len(lhs.elts) == 2 and all(isinstance(x, ast.Name) for x in lhs.elts):
+                pairs.append((lhs, c))
+    for lhs, c in pairs[:1]:
+        b, cc = lhs.elts[0].id, lhs.elts[1].id
+        sb, sc = source_of.get(b), source_of.get(cc)
+        if sb is None or sc is None:
+            rep.undecided(RULE, f, c, 'the sources of the pair [{}, {}] are not loops over table cells'.format(b, cc))
+        elif sb[0].startswith(table + '[i,k') and sc[0].startswith(table + '[k+1,j'):
+            rep.holds(RULE, f, sb[1], 'pairs (B, C) are drawn from X[i,k] x X[k+1,j] in this order and looked up as the right-hand side [B, C]')
+        else:
+            rep.violates(RULE, f, sb[1], 'the combination step must draw B from X[i,k] and C from X[k+1,j] and look up the right-hand side [B, C] in that order (found B from {}, C from {})'.format(sb[0], sc[0]))
     return checked
 
 
